@@ -43,6 +43,17 @@ NETWORKS = ["chain", "branch", "cycle", "names"]
 COEFS = ["num", "irr", "zero", "pname", "pcomp", "scomp"]  # irr: a measured coefficient, not a ratio of small integers
 METHODS = ["LSODA", "Radau", "BDF"]
 STATES = [[0.5, 2.0, 1.5], [2.0, 0.5, 3.0], [1.0, 1.0, 1.0], [3.0, 0.25, 0.5]]
+NEG_STATES = [[-0.25, 2.0, 1.5], [-1.0, 0.5, 0.75]]  # legal states too; used where the laws are defined there (user laws)
+
+
+def _num(expr, values):
+    """Numeric value of a sympy expression with its free symbols bound by NAME (the library is free to create its
+    symbols with assumptions; the numbers it is asked about are what they are - also zero or negative)."""
+    import sympy
+
+    e = sympy.sympify(expr)
+    sub = {sym: values[sym.name] for sym in e.free_symbols if sym.name in values}
+    return sympy.N(e.xreplace(sub)) if sub else sympy.N(e)
 
 
 def loop_rate(s, k):
@@ -73,6 +84,11 @@ def switched(s, k, thr):
     return k * s if s > thr else 0.25 * k * s * s
 
 
+def guarded(s, k):
+    """A sign guard on a variable: states may be negative (solver undershoot, potentials), the guard is part of the law."""
+    return k * s if s > 0 else 0.1 * k * s - 0.05
+
+
 def mm_keywords(s, vmax, km):
     """Calls a shipped rate law with its keyword arguments in another order than its signature."""
     from mxlpy import fns
@@ -95,6 +111,7 @@ def build_model(c, stiff=False):
         m.add_reaction("vcap", capped, args=[first, "kin", "cap"], stoichiometry={first: -1})
         m.add_reaction("vsw", switched, args=[first, "kc", "thr"], stoichiometry={first: -1})
         m.add_reaction("vkw", mm_keywords, args=[first, "kin", "cap"], stoichiometry={first: -1})
+        m.add_reaction("vgd", guarded, args=[first, "kc"], stoichiometry={first: -1})
     if c.get("untr"):
         first = m.get_variable_names()[0]
         fn = {1: loop_rate, 2: int_global_rate, 3: lambda s, k: (
@@ -287,14 +304,14 @@ def check_symbolic(case, nt):
         except Exception as exc:  # noqa: BLE001
             return outcome(False, "jacobian-raised", symptom=f"jacobian-raised:{type(exc).__name__}", nontrivial=nt, detail=f"{exc} | {txt}")
         pvals = {**sm.parameter_values}
-        for st in STATES:
+        for st in STATES + (NEG_STATES if case.get("userlaw") else []):
             for t in (0.0, 1.5):
                 y = st[: len(var_names)] if len(var_names) <= 3 else [*st, 2.0][: len(var_names)]
                 state = dict(zip(var_names, y, strict=True))
                 rhs = m.get_right_hand_side(state, t)
-                subs = {sympy.Symbol(k): v for k, v in {**pvals, **state, "time": t}.items()}
+                subs = {**pvals, **state, "time": t}
                 for v, eq in zip(var_names, sm.eqs, strict=True):
-                    val = sympy.N(eq.subs(subs))
+                    val = _num(eq, subs)
                     if getattr(val, "free_symbols", None):
                         return outcome(False, "unbound-symbols", symptom="unbound-symbols", nontrivial=nt,
                                        detail=f"equation for {v} keeps symbols {val.free_symbols} after binding variables, parameters and time | {txt}")
@@ -304,7 +321,7 @@ def check_symbolic(case, nt):
                 Jn = _numeric_jacobian(m, var_names, y, t)
                 for i in range(len(var_names)):
                     for j in range(len(var_names)):
-                        val = sympy.N(jac[i, j].subs(subs))
+                        val = _num(jac[i, j], subs)
                         if getattr(val, "free_symbols", None):
                             return outcome(False, "unbound-symbols", symptom="unbound-symbols:jacobian", nontrivial=nt, detail=f"{val.free_symbols} | {txt}")
                         if not _close(float(val), float(Jn[i, j]), 2e-6):
@@ -324,9 +341,9 @@ def check_symbolic(case, nt):
         y = st[: len(var_names)] if len(var_names) <= 3 else [*st, 2.0][: len(var_names)]
         state = dict(zip(var_names, y, strict=True))
         rhs = m1.get_right_hand_side(state, 0.5)
-        subs = {sympy.Symbol(k): v for k, v in {**p1, **state, "time": 0.5}.items()}
+        subs = {**p1, **state, "time": 0.5}
         for v, eq in zip(var_names, sm0.eqs, strict=True):
-            val = float(sympy.N(eq.subs(subs)))
+            val = float(_num(eq, subs))
             if not _close(val, float(rhs[v]), 1e-9):
                 return outcome(False, "equations-differ", symptom="equations-differ:parameter-setting", nontrivial=nt,
                                detail=f"d{v}/dt at {state} with parameters re-bound to {p1}: symbolic {val} numeric {float(rhs[v])} | {txt}")
@@ -444,9 +461,9 @@ def check_history(case):
         for st in STATES[:3]:
             state = dict(zip(names, st[: len(names)], strict=True))
             rhs = current.get_right_hand_side(state, 0.5)
-            subs = {sympy.Symbol(k): v for k, v in {**sm.parameter_values, **state, "time": 0.5}.items()}
+            subs = {**sm.parameter_values, **state, "time": 0.5}
             for v, eq in zip(names, sm.eqs, strict=True):
-                val = float(sympy.N(eq.subs(subs)))
+                val = float(_num(eq, subs))
                 if not _close(val, float(rhs[v]), 1e-9):
                     return outcome(False, "equations-differ", symptom="equations-differ:after-earlier-conversion", nontrivial=True,
                                    detail=f"after conversions {case['steps'][: i + 1]}: d{v}/dt symbolic {val} numeric {float(rhs[v])} at {state} | {txt}")
@@ -454,7 +471,7 @@ def check_history(case):
             Jn = _numeric_jacobian(current, names, st[: len(names)], 0.5)
             for a in range(len(names)):
                 for b in range(len(names)):
-                    if not _close(float(sympy.N(jac[a, b].subs(subs))), float(Jn[a, b]), 2e-6):
+                    if not _close(float(_num(jac[a, b], subs)), float(Jn[a, b]), 2e-6):
                         return outcome(False, "jacobian-differs", symptom="jacobian-differs:after-earlier-conversion", nontrivial=True,
                                        detail=f"after conversions {case['steps'][: i + 1]}: J[{a},{b}] differs | {txt}")
     return outcome(True, "converted-equal", nontrivial=True)
